@@ -411,7 +411,9 @@ def _flatten_blocks(rec, total, summary):
     except Unknown:
         return rec
     J = fresh("J")
-    if not end.eq(total):
+    try: ceil_count = icount.eq(mk_fn("ceil", [total / S]))          # S * ceil(K / S) >= K: the blocks reach the end
+    except Unknown: ceil_count = False
+    if not end.eq(total) and not ceil_count:
         # do the blocks reach the end?  look for a concrete count for which they do not
         from .symalg import NumEnv, evalx
         for kval in (1, 2, 3, 5, 7, 10, 11, 13, 100, 101, 1000, 1001, 32769, 65537, 100003):
